@@ -76,7 +76,8 @@ Record guards := mk_guards {
   g_rz_guarded : bool;           (* listenForResize selects on ctx.Done; checkResize's sends (p.errs, Send) have a ctx alternative *)
   g_sig_stays : bool;            (* handleSignals keeps listening after it has forwarded a signal *)
   g_restore_unignores_first : bool; (* RestoreTerminal clears ignoreSignals before its first call that can fail *)
-  g_ticker_stopped_by_stopper : bool (* the frame ticker is stopped by stop()/kill() after the hand-shake, not by the listener *)
+  g_ticker_stopped_by_stopper : bool; (* the frame ticker is stopped by stop()/kill() after the hand-shake, not by the listener *)
+  g_release_failure_restores : bool  (* exec calls RestoreTerminal when ReleaseTerminal failed *)
 }.
 
 Inductive ekind := KRt | KEnv | KCbEnd | KBatchMore.
@@ -225,10 +226,17 @@ Definition steps (G : guards) (s : skel) : list (ekind * skel) :=
      let s1 := if g_release_ignores G then set_ign s true else s in
      let s2 := if g_release_stops_reader G then (match rd s1 with RdReading => set_rd s1 RdDone | _ => s1 end) else s1 in
      let fin_ := fun s3 => [(KRt, set_rl (set_run s3 RExecRun) true)] in
-     if negb (g_release_stops_renderer G) then fin_ s2
-     else if once s then fin_ s2
+     (* ... or its last step (resetting the terminal) fails after all of that was done: the command is not run; exec
+        takes back what was released - if the source says so - and goes on with the callback's message *)
+     let failed := fun s3 =>
+       [(KEnv, if g_release_failure_restores G
+               then set_rl (set_tk (set_ign (set_rd (set_run s3 RUpdateCb) (match rd s3 with RdNone => RdNone | RdSendMsg => RdSendMsg | RdSendErr => RdSendErr | _ => RdReading end))
+                                            (if g_release_ignores G then (g_restore_keeps_nosig G && nosig s) else ign s)) TkListen false) false
+               else set_run s3 RUpdateCb)] in
+     if negb (g_release_stops_renderer G) then fin_ s2 ++ failed s2
+     else if once s then fin_ s2 ++ failed s2
      else match tk s with
-          | TkListen | TkStale => fin_ (set_tk s2 TkDone true)
+          | TkListen | TkStale => fin_ (set_tk s2 TkDone true) ++ failed (set_tk s2 TkDone true)
           | _ => []
           end
    | RExecRun => [(KCbEnd, S RExecRestore)]
